@@ -60,13 +60,14 @@ def corpus(tier):
     chars = [{"source": "const char t[10] = {'\\a','\\b','\\f','\\v','\\n','\\r','\\t','\\0','\\\\','\\''};\nvoid main() { X = t[0]; }\n", "args": ["-O0"],
               "expect": {"panic": False, "must_compile": True, "stdout_contains": "ARRAY t size=10 = 7 8 12 11 10 13 9 0 92 39"}, "note": "the ten escapes as character constants in a table"},
              {"source": "unsigned char c;\nvoid main() { c = '\\a'; }\n", "args": ["-O0"], "expect": {"panic": False, "must_compile": True, "stdout_contains": "LDA #7"}, "note": "'\\a' in an expression"}]
-    return [("character-constants", ["C09"], chars), ("macro-forms", ["C08"], macros), ("constant-destinations-rejected", ["C13", "C01"], rejected), ("error-locations", ["C06"], loc), ("error-locations-inside-a-statement", ["C06"], multi), ("no-panic", ["C16"], nopanic)]
+    from . import u_strscan
+    return [("literal-extent", ["C09"], u_strscan.candidates(None)), ("character-constants", ["C09"], chars), ("macro-forms", ["C08"], macros), ("constant-destinations-rejected", ["C13", "C01"], rejected), ("error-locations", ["C06"], loc), ("error-locations-inside-a-statement", ["C06"], multi), ("no-panic", ["C16"], nopanic)]
 
 
 def build(repo):
     u = Unit(NAME, TOOL, PROPS, [],
              assumptions=["BOUNDED: only the listed programs are covered"],
-             bounded=["the program lists of units/u_errs.py: 7 macro forms, 3 rejected stores, 9 located errors, 3 located errors inside multi-line statements (known finding), 11 inputs that used to panic"])
+             bounded=["the program lists of units/u_errs.py: 6 literals with backslashes before a quote, 2 character-constant programs, 7 macro forms, 3 rejected stores, 9 located errors, 3 located errors inside multi-line statements (known finding), 11 inputs that used to panic"])
     u.text[None] = ""
     u.dropped = ["nothing is extracted: the whole compiler runs (vf/probe)"]
     return u
